@@ -248,113 +248,174 @@ LEMMA_COUNT = ("counting lemma (lemmas/Counting.lean): for a duplicate-free enum
 
 
 # ---------------------------------------------------------------------------- register
-def _reg_pre(s):
-    return s.self, s.task.t, task_id(s.task.t)
+# The contract is generated for two notions of "the registered tasks":
+#   plain   : S = the keys of self.tasks                       (Manager.register, what set_value / load rely on)
+#   rebuild : S = a ghost set of task ids, handed in and out   (Manager.register@rebuild: refresh() and clone() re-register
+#             task after task while `tasks` may already be complete; the indices equal F(S) for the ids registered SO FAR)
+# Everything else -- loop invariants, lemma instances, frame -- is the same text with S substituted.
+class _Reg:
+    def __init__(self, ghost_S):
+        self.ghost_S = ghost_S
 
+    def S(self, s):
+        """(has, dom array) of the registered ids in state s"""
+        if self.ghost_S:
+            return s.S.has, s.S.arr
+        return s.self.tasks.has, s.self.tasks.dom
 
-def _reg_setup0(L, st):
-    m0, tk, tid = _reg_pre(L.old)
-    pcR = prefix_count(st, L.enum, lambda v, e: tars(m0.tasks.get(v))(e), "pcR")
-    # counting lemma instance: enum = dependencies(task), B = targets(T0 v)
-    v = z3.Const("v!l", V)
-    st.hyps.append(z3.ForAll([v], pcR(v, L.n) == card(m0.tasks.get(v), tk), patterns=[pcR(v, L.n)]))
-    L.eng.lemma_uses.append(LEMMA_COUNT)
-    return dict(pcR=pcR)
+    def pre(self, s):
+        return s.self, s.task.t, task_id(s.task.t)
 
+    def wf(self, m, has, dom):
+        val = m.tasks.get
+        return [
+            ("keys", z3.ForAll([t], z3.Implies(has(t), task_id(val(t)) == t), patterns=[val(t)])),
+            ("deptasks=F", z3.ForAll([d, t], m.deptasks.cnt(d, t) == b2i(z3.And(has(t), deps(val(t))(d))))),
+            ("tartasks=F", z3.ForAll([r, t], m.tartasks.cnt(r, t) == b2i(z3.And(has(t), tars(val(t))(r))))),
+            ("rtasks=F", z3.ForAll([w, r], m.rtasks.cnt(w, r) == z3.If(z3.And(has(w), has(r)), card(val(w), val(r)), 0))),
+            ("rdeps=F", z3.ForAll([d, x], m.rdeps.cnt(d, x) == rdsum(dom, m.tasks.val, d, x))),
+        ]
 
-def _reg_setup2(L, st):
-    m0, tk, tid = _reg_pre(L.old)
-    val1 = lambda v: z3.If(v == tid, tk, m0.tasks.get(v))
-    qcD = prefix_count(st, L.enum, lambda v, e: deps(val1(v))(e), "qcD")
-    v = z3.Const("v!l", V)
-    st.hyps.append(z3.ForAll([v], qcD(v, L.n) == card(tk, val1(v)), patterns=[qcD(v, L.n)]))
-    L.eng.lemma_uses.append(LEMMA_COUNT)
-    return dict(qcD=qcD, val1=val1)
+    def rdsum_lower(self, s):
+        m = s.self
+        has, dom = self.S(s)
+        return z3.And(
+            z3.ForAll([d, x], rdsum(dom, m.tasks.val, d, x) >= 0),
+            z3.ForAll([t, d, x], z3.Implies(has(t), rdsum(dom, m.tasks.val, d, x) >= ind(m.tasks.get(t), d, x))))
 
+    def rdsum_add(self, s):
+        m, tk, key = self.pre(s)
+        has, dom = self.S(s)
+        dom1 = z3.Store(dom, key, z3.BoolVal(True))
+        val1 = z3.Store(m.tasks.val, key, tk)
+        return z3.ForAll([d, x], z3.Implies(z3.Not(has(key)),
+                                            rdsum(dom1, val1, d, x) == rdsum(dom, m.tasks.val, d, x) + ind(tk, d, x)))
 
-def _reg_inv0():
-    def rdeps(L):
-        m0, tk, tid = _reg_pre(L.old)
-        return z3.ForAll([d, x], L.cur.self.rdeps.cnt(d, x) == m0.rdeps.cnt(d, x)
-                         + b2i(z3.And(deps(tk)(d), L.idx(d) < L.k, tars(tk)(x))))
+    def setup0(self, L, st):
+        m0, tk, tid = self.pre(L.old)
+        pcR = prefix_count(st, L.enum, lambda v, e: tars(m0.tasks.get(v))(e), "pcR")
+        # counting lemma instance: enum = dependencies(task), B = targets(T0 v)
+        v = z3.Const("v!l", V)
+        st.hyps.append(z3.ForAll([v], pcR(v, L.n) == card(m0.tasks.get(v), tk), patterns=[pcR(v, L.n)]))
+        L.eng.lemma_uses.append(LEMMA_COUNT)
+        return dict(pcR=pcR)
 
-    def deptasks(L):
-        m0, tk, tid = _reg_pre(L.old)
-        return z3.ForAll([d, t], L.cur.self.deptasks.cnt(d, t) == m0.deptasks.cnt(d, t)
-                         + b2i(z3.And(deps(tk)(d), L.idx(d) < L.k, t == tid)))
+    def setup2(self, L, st):
+        m0, tk, tid = self.pre(L.old)
+        val1 = lambda v: z3.If(v == tid, tk, m0.tasks.get(v))
+        qcD = prefix_count(st, L.enum, lambda v, e: deps(val1(v))(e), "qcD")
+        v = z3.Const("v!l", V)
+        st.hyps.append(z3.ForAll([v], qcD(v, L.n) == card(tk, val1(v)), patterns=[qcD(v, L.n)]))
+        L.eng.lemma_uses.append(LEMMA_COUNT)
+        return dict(qcD=qcD, val1=val1)
 
-    def rtasks(L):
-        m0, tk, tid = _reg_pre(L.old)
-        return z3.ForAll([w, r], L.cur.self.rtasks.cnt(w, r) == m0.rtasks.cnt(w, r)
-                         + z3.If(z3.And(r == tid, m0.tasks.has(w)), L.x["pcR"](w, L.k), 0))
-    return [("rdeps+prefix", rdeps), ("deptasks+prefix", deptasks), ("rtasks+prefixcount", rtasks),
-            ("index", lambda L: z3.And(0 <= L.k, L.k <= L.n))]
+    def inv0(self):
+        def rdeps(L):
+            m0, tk, tid = self.pre(L.old)
+            return z3.ForAll([d, x], L.cur.self.rdeps.cnt(d, x) == m0.rdeps.cnt(d, x)
+                             + b2i(z3.And(deps(tk)(d), L.idx(d) < L.k, tars(tk)(x))))
 
+        def deptasks(L):
+            m0, tk, tid = self.pre(L.old)
+            return z3.ForAll([d, t], L.cur.self.deptasks.cnt(d, t) == m0.deptasks.cnt(d, t)
+                             + b2i(z3.And(deps(tk)(d), L.idx(d) < L.k, t == tid)))
 
-def _reg_inv1():
-    def rtasks(L):
-        m0, tk, tid = _reg_pre(L.old)
-        dep = L.cur.dep.t
-        return z3.ForAll([w, r], L.cur.self.rtasks.cnt(w, r) == L.pre.self.rtasks.cnt(w, r)
-                         + b2i(z3.And(r == tid, m0.tartasks.cnt(dep, w) > 0, L.idx(w) < L.k)))
-    return [("rtasks+inner-prefix", rtasks), ("index", lambda L: z3.And(0 <= L.k, L.k <= L.n))]
+        def rtasks(L):
+            m0, tk, tid = self.pre(L.old)
+            has0, _ = self.S(L.old)
+            return z3.ForAll([w, r], L.cur.self.rtasks.cnt(w, r) == m0.rtasks.cnt(w, r)
+                             + z3.If(z3.And(r == tid, has0(w)), L.x["pcR"](w, L.k), 0))
+        return [("rdeps+prefix", rdeps), ("deptasks+prefix", deptasks), ("rtasks+prefixcount", rtasks),
+                ("index", lambda L: z3.And(0 <= L.k, L.k <= L.n))]
 
+    def inv1(self):
+        def rtasks(L):
+            m0, tk, tid = self.pre(L.old)
+            dep = L.cur.dep.t
+            return z3.ForAll([w, r], L.cur.self.rtasks.cnt(w, r) == L.pre.self.rtasks.cnt(w, r)
+                             + b2i(z3.And(r == tid, m0.tartasks.cnt(dep, w) > 0, L.idx(w) < L.k)))
+        return [("rtasks+inner-prefix", rtasks), ("index", lambda L: z3.And(0 <= L.k, L.k <= L.n))]
 
-def _reg_inv2():
-    def tartasks(L):
-        m0, tk, tid = _reg_pre(L.old)
-        return z3.ForAll([r, t], L.cur.self.tartasks.cnt(r, t) == m0.tartasks.cnt(r, t)
-                         + b2i(z3.And(tars(tk)(r), L.idx(r) < L.k, t == tid)))
+    def inv2(self):
+        def tartasks(L):
+            m0, tk, tid = self.pre(L.old)
+            return z3.ForAll([r, t], L.cur.self.tartasks.cnt(r, t) == m0.tartasks.cnt(r, t)
+                             + b2i(z3.And(tars(tk)(r), L.idx(r) < L.k, t == tid)))
 
-    def rtasks(L):
-        m0, tk, tid = _reg_pre(L.old)
-        has1 = lambda v: z3.Or(v == tid, m0.tasks.has(v))
-        return z3.ForAll([w, r], L.cur.self.rtasks.cnt(w, r) == L.pre.self.rtasks.cnt(w, r)
-                         + z3.If(z3.And(w == tid, has1(r)), L.x["qcD"](r, L.k), 0))
-    return [("tartasks+prefix", tartasks), ("rtasks+prefixcount", rtasks),
-            ("index", lambda L: z3.And(0 <= L.k, L.k <= L.n))]
+        def rtasks(L):
+            m0, tk, tid = self.pre(L.old)
+            has0, _ = self.S(L.old)
+            has1 = lambda v: z3.Or(v == tid, has0(v))
+            return z3.ForAll([w, r], L.cur.self.rtasks.cnt(w, r) == L.pre.self.rtasks.cnt(w, r)
+                             + z3.If(z3.And(w == tid, has1(r)), L.x["qcD"](r, L.k), 0))
+        return [("tartasks+prefix", tartasks), ("rtasks+prefixcount", rtasks),
+                ("index", lambda L: z3.And(0 <= L.k, L.k <= L.n))]
 
+    def inv3(self):
+        def rtasks(L):
+            m0, tk, tid = self.pre(L.old)
+            return z3.ForAll([w, r], L.cur.self.rtasks.cnt(w, r) == L.pre.self.rtasks.cnt(w, r)
+                             + b2i(z3.And(w == tid, L.cur.other.cnt(r) > 0, L.idx(r) < L.k)))
+        return [("rtasks+inner-prefix", rtasks), ("index", lambda L: z3.And(0 <= L.k, L.k <= L.n))]
 
-def _reg_inv3():
-    def rtasks(L):
-        m0, tk, tid = _reg_pre(L.old)
-        return z3.ForAll([w, r], L.cur.self.rtasks.cnt(w, r) == L.pre.self.rtasks.cnt(w, r)
-                         + b2i(z3.And(w == tid, L.cur.other.cnt(r) > 0, L.idx(r) < L.k)))
-    return [("rtasks+inner-prefix", rtasks), ("index", lambda L: z3.And(0 <= L.k, L.k <= L.n))]
+    def contract(self):
+        G = self
+        labels = ("keys", "deptasks=F", "tartasks=F", "rtasks=F", "rdeps=F")
+
+        def req(lb):
+            return lambda s: dict(G.wf(s.self, *G.S(s)))[lb]
+
+        def ens(lb):
+            return lambda o, n, r: dict(G.wf(n.self, *G.S(n)))[lb]
+        ensures = [("tasks+task", lambda o, n, r: z3.And(
+            n.self.tasks.dom == z3.Store(o.self.tasks.dom, task_id(o.task.t), z3.BoolVal(True)),
+            n.self.tasks.val == z3.Store(o.self.tasks.val, task_id(o.task.t), o.task.t)))]
+        if self.ghost_S:
+            ensures.append(("S+task", lambda o, n, r: n.S.arr == z3.Store(o.S.arr, task_id(o.task.t), z3.BoolVal(True))))
+        ensures += [(lb, ens(lb)) for lb in labels]
+        extra = dict(trusted_lemmas=[LEMMA_COUNT, "rdeps_sum is a finite sum of 0/1 terms: adding/removing one summand "
+                                                  "changes it by that summand; it dominates each summand"])
+        if self.ghost_S:
+            extra["variant"] = "rebuild"
+            # ghost update: the id joins S where the real code files the task under it
+            extra["ghost_after"] = {"self.tasks[taskid] = task": lambda ns, st: st.env.__setitem__(
+                "S", PySet(z3.Store(ns.S.arr, ns.taskid.t, z3.BoolVal(True))))}
+        return Contract(
+            module=M, qualname="Manager.register",
+            params=dict(self=TMgr, task=TTask),
+            ghost=dict(S=TSet) if self.ghost_S else {},
+            requires=[(lb, req(lb)) for lb in labels] + [
+                ("taskid-not-registered", lambda s: z3.Or(s.self._tree_frozen.t, z3.Not(G.S(s)[0](task_id(s.task.t))))),
+            ],
+            axioms=[lambda s: z3.And(*card_axioms()), self.rdsum_lower, self.rdsum_add],
+            ensures=ensures,
+            raises={"ValueError": dict(when=lambda s: s.self._tree_frozen.t, exact=True, post=[], modifies=())},
+            modifies=("self.tasks", "self.rdeps", "self.rtasks", "self.deptasks", "self.tartasks") + (("S",) if self.ghost_S else ()),
+            loops={
+                0: LoopSpec(anchor="task.dependencies", invariants=self.inv0(), setup=self.setup0),
+                1: LoopSpec(anchor="self.tartasks[dep]", invariants=self.inv1()),
+                2: LoopSpec(anchor="task.targets", invariants=self.inv2(), setup=self.setup2),
+                3: LoopSpec(anchor="other", invariants=self.inv3()),
+            },
+            min_obligations=25,
+            extra=extra,
+            note=("indices == F(S) for a ghost set S of registered ids (the ids re-registered so far by refresh / clone); "
+                  "S gains the task's id" if self.ghost_S else ""),
+        )
 
 
 FROZEN_MSG_FIELDS = ("tasks", "containers", "rdeps", "rtasks", "deptasks", "tartasks", "_tree_frozen")
 
-REGISTER = Contract(
-    module=M, qualname="Manager.register",
-    params=dict(self=TMgr, task=TTask),
-    requires=[(lb, (lambda lb_: lambda s: dict(idx_wf(s.self))[lb_])(lb)) for lb in
-              ("keys", "deptasks=F", "tartasks=F", "rtasks=F", "rdeps=F")] + [
-        ("taskid-not-registered", lambda s: z3.Or(s.self._tree_frozen.t,
-                                                  z3.Not(s.self.tasks.has(task_id(s.task.t))))),
-    ],
-    axioms=[lambda s: z3.And(*card_axioms()),
-            lambda s: rdsum_lower(s.self),
-            lambda s: rdsum_add(s.self, task_id(s.task.t), s.task.t)],
-    ensures=[("tasks+task", lambda o, n, r: z3.And(
-        n.self.tasks.dom == z3.Store(o.self.tasks.dom, task_id(o.task.t), z3.BoolVal(True)),
-        n.self.tasks.val == z3.Store(o.self.tasks.val, task_id(o.task.t), o.task.t)))] + [
-        (lb, (lambda lb_: lambda o, n, r: dict(idx_wf(n.self))[lb_])(lb)) for lb in
-        ("keys", "deptasks=F", "tartasks=F", "rtasks=F", "rdeps=F")],
-    raises={"ValueError": dict(when=lambda s: s.self._tree_frozen.t, exact=True, post=[], modifies=())},
-    modifies=("self.tasks", "self.rdeps", "self.rtasks", "self.deptasks", "self.tartasks"),
-    loops={
-        0: LoopSpec(anchor="task.dependencies", invariants=_reg_inv0(), setup=_reg_setup0),
-        1: LoopSpec(anchor="self.tartasks[dep]", invariants=_reg_inv1()),
-        2: LoopSpec(anchor="task.targets", invariants=_reg_inv2(), setup=_reg_setup2),
-        3: LoopSpec(anchor="other", invariants=_reg_inv3()),
-    },
-    min_obligations=25,
-    extra=dict(trusted_lemmas=[LEMMA_COUNT, "rdeps_sum is a finite sum of 0/1 terms: adding/removing one summand "
-                                            "changes it by that summand; it dominates each summand"]),
-)
+REGISTER = _Reg(False).contract()
+REGISTER_REBUILD = _Reg(True).contract()
+
+
+def _reg_pre(s):
+    return s.self, s.task.t, task_id(s.task.t)
+
 
 CONTRACTS += [REGISTER]
+VARIANTS = [REGISTER_REBUILD]
 
 
 # -------------------------------------------------------------------------- unregister
